@@ -94,6 +94,8 @@ type Sim struct {
 	Preempts  int
 	SweepTask string
 	SweepAt   int
+	// Frozen, if set, withholds tasks from scheduling (a stalled / starved goroutine)
+	Frozen func(name string) bool
 
 	// stubs
 	pipes  map[string]*SimPipe
@@ -484,6 +486,9 @@ func (s *Sim) Ready() []*Task {
 	var r []*Task
 	for _, t := range s.tasks {
 		if !t.parked || t.lockBlocked && t.lockEpoch == s.unlockEpoch {
+			continue
+		}
+		if s.Frozen != nil && s.Frozen(t.Name) {
 			continue
 		}
 		r = append(r, t)
